@@ -813,24 +813,27 @@ impl<'a> Model<'a> {
         check_lifecycle(pre, &post, op, rolled_to)?;
         if let (Some(h), true) = (rolled_to, self.opts.persist != Persist::Off) {
             // The same rollback through the real wallet: save the pre-state, truncate the WALLET
-            // that owns the store, load the migration back. One representative per class of
-            // (status, per transaction: lifecycle state and the position of its mined height, mark
-            // and failure report relative to the rollback height, clamped to -2..=+2).
-            let rel = |x: u32| (i64::from(x) - i64::from(h)).clamp(-2, 2);
-            let mut class = format!("{:?}", pre.status());
+            // that owns the store, load the migration back.
+            // A rollback acts on each transaction independently (plus the status), so the
+            // representatives are chosen per transaction class: the event goes through the wallet
+            // when it shows a (status, lifecycle state, position of mined height / mark / report
+            // relative to the rollback height, clamped to -1..=+2) combination not seen before in
+            // this search. Replay runs it always.
+            let rel = |x: u32| (i64::from(x) - i64::from(h)).clamp(-1, 2);
+            let mut fresh = self.persist_seen.is_none();
             for t in pre.transactions() {
-                class.push_str(&format!(
-                    "|{}{:?}{:?}{:?}",
+                let class = format!(
+                    "{:?}|{}{:?}{:?}{:?}",
+                    pre.status(),
                     rank(&t.state()),
                     t.state().mined_height().map(|m| rel(u32::from(m))),
-                    t.unsatisfiable().map(|(m, k)| (rel(u32::from(m)), k)),
+                    t.unsatisfiable().map(|(m, _)| rel(u32::from(m))),
                     t.broadcast_failure_at().map(|m| rel(u32::from(m)))
-                ));
+                );
+                if self.persist_seen.is_some() && self.rollback_seen.borrow_mut().insert(mc_core::key128(class.as_bytes())) {
+                    fresh = true;
+                }
             }
-            let fresh = match self.persist_seen {
-                Some(_) => self.rollback_seen.borrow_mut().insert(mc_core::key128(class.as_bytes())),
-                None => true,
-            };
             if fresh {
                 self.counters.borrow_mut().wallet_rollbacks += 1;
                 let o = super::persist::wallet_rollback_explored(pre, h, FLOOR)?;
